@@ -478,11 +478,14 @@ impl Machine {
         new_vm.global_vals = self.global_vals.clone();
         new_vm.arrays = self.arrays.clone();
 
+        let old_skeleton = self
+            .prog
+            .get_dsp_state_skeleton()
+            .cloned()
+            .expect("dsp function not found");
+        let old_size = old_skeleton.total_size() as usize;
         let patch_plan = state_tree::build_state_storage_patch_plan(
-            self.prog
-                .get_dsp_state_skeleton()
-                .cloned()
-                .expect("dsp function not found"),
+            old_skeleton,
             new_vm
                 .prog
                 .get_dsp_state_skeleton()
@@ -490,8 +493,14 @@ impl Machine {
                 .expect("dsp function not found"),
         );
         if let Some(plan) = patch_plan {
+            // The state storage gets its size at the first dsp call; before that it stands for
+            // all-zero state of the old layout.
+            let mut old_data = self.global_states.rawdata.clone();
+            if old_data.len() < old_size {
+                old_data.resize(old_size, 0);
+            }
             new_vm.global_states.rawdata =
-                state_tree::apply_state_storage_patch_plan(&self.global_states.rawdata, &plan);
+                state_tree::apply_state_storage_patch_plan(&old_data, &plan);
         } else {
             log::info!("No state structure change detected. Just copies buffer");
             new_vm.global_states.rawdata = self.global_states.rawdata.clone();
